@@ -709,3 +709,39 @@ package server
 //@ loop 0 invariant as(reader, *wal.forwardReader).reader.wal == old(as(reader, *wal.forwardReader).reader.wal) && as(reader, *wal.forwardReader).reader.wal.readLatency != nil && as(reader, *wal.forwardReader).reader.wal.lastSyncedOffset.v < 4611686018427387904
 //@ loop 0 invariant as(reader, *wal.forwardReader).reader.nextOffset == currentOffset + 1
 //@ modifies *
+
+// ---------------------------------------------------------------- the callback chain of a write (C14, C15)
+
+// The callbacks every write goes through: the session callback first, then the
+// secondary-index callback, both on every path. For a put the session callback decides:
+// the index callback runs only when the session callback accepted the put (a refused put
+// leaves no index entry behind). For deletes both always run unless the first fails.
+//
+//@ func wrapperUpdateCallback.OnPut(w, batch, req, se) (status, err)
+//@ property C15 C14
+//@ assume sessionManagerUpdateOperationCallback != nil && secondaryIndexesUpdateCallback != nil because "package-level singletons, never reassigned"
+//@ assert at call OnPut#0: recv == sessionManagerUpdateOperationCallback
+//@ assert at call OnPut#1: recv == secondaryIndexesUpdateCallback && callres_OnPut_0_0 == 0 && callres_OnPut_0_1 == nil
+//@ ensures callres_OnPut_0_1 != nil ==> err != nil
+//@ modifies *
+
+//@ func wrapperUpdateCallback.OnDelete(w, batch, key) (err)
+//@ property C15 C14
+//@ assume sessionManagerUpdateOperationCallback != nil && secondaryIndexesUpdateCallback != nil because "package-level singletons, never reassigned"
+//@ assert at call OnDelete#0: recv == sessionManagerUpdateOperationCallback
+//@ assert at call OnDelete#1: recv == secondaryIndexesUpdateCallback
+//@ modifies *
+
+//@ func wrapperUpdateCallback.OnDeleteWithEntry(w, batch, key, value) (err)
+//@ property C15 C14
+//@ assume sessionManagerUpdateOperationCallback != nil && secondaryIndexesUpdateCallback != nil because "package-level singletons, never reassigned"
+//@ assert at call OnDeleteWithEntry#0: recv == sessionManagerUpdateOperationCallback
+//@ assert at call OnDeleteWithEntry#1: recv == secondaryIndexesUpdateCallback
+//@ modifies *
+
+//@ func wrapperUpdateCallback.OnDeleteRange(w, batch, keyStartInclusive, keyEndExclusive) (err)
+//@ property C15 C14
+//@ assume sessionManagerUpdateOperationCallback != nil && secondaryIndexesUpdateCallback != nil because "package-level singletons, never reassigned"
+//@ assert at call OnDeleteRange#0: recv == sessionManagerUpdateOperationCallback
+//@ assert at call OnDeleteRange#1: recv == secondaryIndexesUpdateCallback
+//@ modifies *
